@@ -8,6 +8,7 @@ package trzsz
 // one chain of 1 or 2 real relays, with pass-through probes in both directions after each.
 
 import (
+	"io"
 	"encoding/json"
 	"fmt"
 	"net"
@@ -46,6 +47,8 @@ func c14NL(m map[string]any) string {
 		return "other"
 	}
 }
+var d14ClientViews int
+
 func c14I(m map[string]any, k string) int {
 	f, _ := m[k].(float64)
 	return int(f)
@@ -148,6 +151,20 @@ func c14RunCase(c *c14Case) (map[string]any, error) {
 				"width": c14I(m, "tmux_pane_width"), "newline": c14NL(m)}
 		}
 		obs["cfgOut"] = abs(co)
+		// what a client makes of the relayed configuration: the line goes through the real recvConfig of a fresh
+		// client, whose defaults apply to every key the relay left out
+		{
+			ct := newTransfer(io.Discard, nil, false, nil)
+			ct.addReceivedData(append([]byte(nil), cfgOutRaw...), false)
+			if cc, err := ct.recvConfig(); err == nil {
+				out := obs["cfgOut"].(map[string]any)
+				out["quiet"], out["overwrite"], out["directory"] = cc.Quiet, cc.Overwrite, cc.Directory
+				out["bufk"], out["timeout"], out["compress"] = int(cc.MaxBufSize/1024), cc.Timeout, int(cc.CompressType)
+				out["binary"], out["proto"] = cc.Binary, cc.Protocol
+				d14ClientViews++
+			}
+			ct.stopTransferringFiles(false)
+		}
 		// what the server itself sent (its transferConfig mirrors the CFG it wrote)
 		sc := st.transferConfig
 		obs["cfgIn"] = map[string]any{"quiet": sc.Quiet, "overwrite": sc.Overwrite, "directory": sc.Directory,
